@@ -102,18 +102,18 @@ def key1(ctx: Ctx, chk) -> None:
                         allowed.add(f)
                     else:
                         others.setdefault(f, set()).add(cell[1])
-        for f in ctx.prog.all_functions():
+        for f0, f in sb.owner_functions(ctx):
             for st, key_e, _v in sb.store_sites(ctx, f, attr):
                 n += 1
                 chk.instance(rule)
                 k = fkey(f, st) + "::owner"
                 kc = Canon(ctx.I, f).canon(key_e) if key_e is not None else ""
-                if f in allowed and f not in others:
+                if f0 in allowed and f0 not in others:
                     chk.ok(rule, k, f"stored by the outgoing `{cmd}` handler only", ctx.loc(f, st), sample=n <= 2)
                 elif "In.command" in kc:
                     chk.ok(rule, k, "the key includes the command", ctx.loc(f, st))
                 else:
-                    who = f"the outgoing handler of command {sorted(others[f])}" if f in others else f.qualname
+                    who = f"the outgoing handler of command {sorted(others[f0])}" if f0 in others else f.qualname
                     chk.refute(rule, k, f"{who} parks messages in {attr} under {kc or 'a key'}: a `{cmd}` command already parked under the same (node, child, type) is silently replaced and never written (or replaces this message)", ctx.loc(f, st))
     chk.floor(rule, "stores into the sleep buffers", n, 2)
 
